@@ -92,7 +92,7 @@ Definition gsr_value (s : sset) (revs : list rev) : option (rev * rev * Z) :=
   | None => None
   | Some h0 =>
     let fresh := {| r_name := rev_name s h0; r_revision := next; r_tmpl := s_tmpl s; r_owner := Some (me s);
-                    r_match := true; r_marker := None; r_hash := Some h0; r_created := 0; r_labels_nil := false |} in
+                    r_match := true; r_marker := None; r_hash := Some h0; r_created := created_now; r_labels_nil := false |} in
     let equal := filter (fun r => equal_revision r fresh) revs in
     match last_opt equal, last_opt revs with
     | Some e, Some l =>
